@@ -126,6 +126,16 @@ func (s *RegionStorage) SaveRegion(region *metapb.Region) error {
 	return nil
 }
 
+// Remove drops a pending (unflushed) write of the key before removing it from leveldb, so that a later
+// flush cannot bring a deleted region back. Both Storage.DeleteRegion and the pruning deletes of
+// loadRegions reach the region storage through kv.Base.Remove.
+func (s *RegionStorage) Remove(key string) error {
+	s.mu.Lock()
+	defer s.mu.Unlock()
+	delete(s.batchRegions, key)
+	return s.LeveldbKV.Remove(key)
+}
+
 func deleteRegion(kv kv.Base, region *metapb.Region) error {
 	return kv.Remove(regionPath(region.GetId()))
 }
